@@ -96,6 +96,7 @@ class Registry:
         c.arg_types = dict(kw.get("args", {}))
         c.returns = kw.get("returns")
         c.self_fields = kw.get("self_fields")
+        c.ghost_results = kw.get("ghost_results", {})
         c.options = kw
         body = []
         for stmt in node.body:
@@ -127,7 +128,7 @@ class Registry:
                 if name == "ghost":
                     g = {}
                     for kwd in call.keywords:
-                        g[kwd.arg] = ast.literal_eval(kwd.value) if kwd.arg in ("after", "before") else kwd.value
+                        g[kwd.arg] = ast.literal_eval(kwd.value) if kwd.arg in ("after", "before", "let") else kwd.value
                     if not hasattr(c, "ghosts"):
                         c.ghosts = []
                     c.ghosts.append(g)
